@@ -172,7 +172,7 @@ class _Fail:
         self.__name__ = 'fail'
 
     def __call__(self):
-        self.m1.schedule_failure(2, 'x')
+        self.m1.schedule_failure(1.5, 'x')       # in the middle of a part: a processing timer is pending
         self.m2.schedule_failure(2, 'y')
 
 
@@ -340,8 +340,20 @@ def run_repro_job(job, seed):
             base = None
             for off in job['offsets']:
                 for rep in (0, 1):
-                    r = one_run(kind, sd, off, horizon)
                     cells += 1
+                    try:
+                        r = one_run(kind, sd, off, horizon)
+                    except HarnessError:
+                        raise
+                    except Exception as e:
+                        from . import library_origin
+                        where = library_origin(e)
+                        if where is None:
+                            raise
+                        # the model runs at the other offsets: raising here is a difference between the runs
+                        r = f'{type(e).__name__} at {where}: {str(e)[:160]}'
+                        bad('exception', f'model {kind}, seed {sd}, asset-id offset {off}: {r}', (kind, sd, off, rep))
+                        continue
                     if base is None:
                         base = r
                     elif r != base:
